@@ -442,9 +442,38 @@ pub fn step(w: &World, idx: usize, local: &Local, input: &Input, policy: &Policy
     };
     if crashed || out.blocked {
         // the process is gone: only the durable image survives
-        out.local = out.local.restarted();
+        out.local = real_restart(w, idx, &out.local);
     }
     out
+}
+
+/// The state a new process has after a restart, obtained from the REAL `StateMachine::start` reading
+/// the durable image (persisted replica state + stored blocks) through a real `EngineManager`.
+/// (`Local::restarted` is the harness's own transcription of that; it is only used to decide whether
+/// a restart can change anything and as a cross-check in the self test.)
+pub fn real_restart(w: &World, idx: usize, local: &Local) -> Local {
+    let eng = SimEngine::from_local(w, local);
+    let eng2 = eng.clone();
+    let key = w.c.keys[idx].clone();
+    let epoch = w.c.epoch;
+    let ch = core::Chooser::new(vec![], None);
+    let snap = sched::run(&ch, |_idle| async move {
+        let clock = ctx::ManualClock::new();
+        let root = ctx::test_root(&clock);
+        let (mgr, runner) = EngineManager::new(&root, Box::new(eng2), time::Duration::seconds(1)).await.expect("EngineManager::new");
+        let cfg = Arc::new(Config::new(key, MAX_PAYLOAD, time::Duration::seconds(VIEW_TIMEOUT_S), mgr, epoch).expect("Config::new"));
+        let r: Result<bv::Snapshot, ctx::Error> = scope::run!(&root, |ctx, s| async move {
+            s.spawn_bg(async move {
+                let _ = runner.run(ctx).await;
+                Ok(())
+            });
+            let replica = bv::Replica::start(ctx, cfg).await?;
+            Ok(replica.snapshot())
+        })
+        .await;
+        r.expect("StateMachine::start")
+    });
+    Local { snap, durable: local.durable.clone(), blocks: local.blocks.clone() }
 }
 
 
